@@ -593,6 +593,7 @@ class Font(BaseObject):
                     self._lib.disableNotifications()
                     d = reader.readLib(validate=self._lib.ufoLibReadValidate)
                     self._lib.update(d)
+                    self._lib.dirty = False
                     self._lib.enableNotifications()
                     self._stampLibDataState(reader)
             else:
